@@ -39,6 +39,37 @@ Theorem c19_metadata_coder : forall r es, all_strings es ->
 Proof. exact metadata_coder_law. Qed.
 Print Assumptions c19_metadata_coder.
 
+(* ... and, stronger, the coder is the IDENTITY on string maps - the loaded value, not only its print: for EVERY map from
+   strings to strings (any keys and values, byte for byte: "1.10", "007", "true", "", blanks, quotes ...) converting to the
+   config form and back gives the map; and through the text: dumping the config form, loading the text and converting
+   back gives the map.  (No value is re-typed or re-spelled: the model's metadataToConfig writes every value as a JSON
+   string, as the source does - src_metadata_strings_only is read by go/ast: metadataToConfig stores every value unchanged,
+   configToMetadata takes string members only - and the correspondence compares the real strings on every run, with
+   values from a hostile pool.) *)
+Theorem c19_metadata_identity : forall r es, all_strings es ->
+  call_unmarshal_fn "configToMetadata" (call_marshal_fn "metadataToConfig" (VRef r es)) = VRef 0 es.
+Proof. exact metadata_coder_identity. Qed.
+Theorem c19_metadata_text_identity : forall t, is_meta_slot t = true -> forall r e es, all_strings (e :: es) ->
+  forall fuel fuel' x,
+    fuel_free (encode cfg_structs fuel t (call_marshal_fn "metadataToConfig" (VRef r (e :: es)))) = true ->
+    decode cfg_structs fuel' t (encode cfg_structs fuel t (call_marshal_fn "metadataToConfig" (VRef r (e :: es)))) = Some x ->
+    call_unmarshal_fn "configToMetadata" x = VRef 0 (e :: es).
+Proof. exact metadata_text_identity. Qed.
+Print Assumptions c19_metadata_text_identity.
+Theorem c19_source_metadata_strings : src_metadata_strings_only = true.
+Proof. exact (eq_refl true). Qed.
+(* non-vacuity; members of the input that are not strings (numbers, booleans, null) are not metadata *)
+Example c19_metadata_examples :
+  call_unmarshal_fn "configToMetadata" (call_marshal_fn "metadataToConfig" (VRef 7 [("version", VStr "1.10"); ("zeros", VStr "007"); ("t", VStr "true"); ("e", VStr "")]))
+    = VRef 0 [("version", VStr "1.10"); ("zeros", VStr "007"); ("t", VStr "true"); ("e", VStr "")] /\
+  encode cfg_structs 8 (TPtr (TNamed "v2.MetadataConfig")) (call_marshal_fn "metadataToConfig" (VRef 7 [("version", VStr "1.10"); ("t", VStr "true")]))
+    = JObj [("filter_metadata", JObj [("mosn.lb", JObj [("version", JStr "1.10"); ("t", JStr "true")])])] /\
+  option_map (call_unmarshal_fn "configToMetadata")
+    (decode cfg_structs 8 (TPtr (TNamed "v2.MetadataConfig"))
+       (JObj [("filter_metadata", JObj [("mosn.lb", JObj [("version", JStr "1.10"); ("n", JNum "2"); ("b", JBool true); ("z", JNull)])])]))
+    = Some (VRef 0 [("version", VStr "1.10")]).
+Proof. exact metadata_examples. Qed.
+
 (* the type table of THIS tree meets the conditions of the generic theorem *)
 Theorem c19_table_ok : table_ok cfg_structs = true.
 Proof. exact table_ok_true. Qed.
